@@ -525,8 +525,11 @@ def expected_calls(case, mgrs, who, ev, has_desc):
 
 
 # ------------------------------------------------------------------ the direct oracle
-def label(case):
-    raising = sorted('%s:%s' % (b[1].replace('method_', ''), b[2]) for b in case['beh'])
+def label(case, obs=None):
+    """shape of the injection: driver, request kind, function behaviour, the listeners that raised"""
+    called = None if obs is None else {(e, l) for e, l in obs.get('ltrace', [])}
+    raising = sorted('%s:%s' % (b[1].replace('method_', ''), b[2]) for b in case['beh']
+                     if called is None or (b[1], b[0]) in called)
     return '%s|request=%s|fn=%s|listener=%s' % (case['driver'], case['request'], case['fn'],
                                                  '+'.join(sorted(set(raising))) or 'none')
 
@@ -809,7 +812,7 @@ def evaluate(check, case, cases_out, use_oracle=True):
     check.count(key)
     if use_oracle and in_alphabet(case):
         for clause, msg in oracle(case, obs):
-            check.fail('C14|%s|%s' % (label(case), clause),
+            check.fail('C14|%s|%s' % (label(case, obs), clause),
                        '%s [%s over %s->%s, %s]' % (msg, case['driver'], case['inp'], case['outp'],
                                                     'request=%s fn=%s raising listeners=%s' % (case['request'], case['fn'], case['beh'])),
                        {'case': case, 'observed': {'listener_calls': obs['ltrace'], 'result': obs['result'],
@@ -907,7 +910,7 @@ def replay(check, path):
             print(json.dumps({'result': obs.get('result'), 'listener_calls': obs.get('ltrace'), 'status': obs.get('status'),
                               'steps': obs.get('steps')}, default=repr)[:3000])
             for clause, msg in oracle(case, obs):
-                check.fail('C14|%s|%s' % (label(case), clause), msg, {'case': case})
+                check.fail('C14|%s|%s' % (label(case, obs), clause), msg, {'case': case})
         elif 'prog' in r:
             case = {'driver': 'serverbase', 'inp': 'json', 'outp': 'json', 'prog': r['prog'], 'desc': {'mgrs': [], 'cls': 0},
                     'beh': [], 'request': 'ok', 'fn': 'ok'}
